@@ -28,6 +28,7 @@ type field struct {
 	CountOf string  // this integer field holds the number of elements of list field CountOf
 	Elem    []field // structlist: the integer fields of the element structure
 	ElemT   string
+	Rest    bool // byte buffer that the decoder takes as "everything that is left" of its block
 	FixLen  int  // byte buffer whose length the decoder fixes (pad conventions); -1 = free
 	Opt     bool // emitted only when non-zero (read from Marshal)
 	Cond    bool // emitted under some other run-time condition (first use in Marshal is inside a nested block)
@@ -118,6 +119,7 @@ func main() {
 	relRe := regexp.MustCompile(`c\.(\w+) = raw\w+\[offset ?: ?offset ?\+ ?int\(c\.(\w+)\)\]`)
 	cntRe := regexp.MustCompile(`for i := 0; i < int\(c\.(\w+)\); i\+\+ \{([\s\S]*?)\n\t\}`)
 	cntBodyRe := regexp.MustCompile(`c\.(\w+) = append\(c\.|c\.(\w+)\[i\] =`)
+	restRe := regexp.MustCompile(`c\.(\w+) = raw\w+\[offset:\]`)
 	fixRe := regexp.MustCompile(`c\.(\w+) = raw\w+\[offset ?: ?offset ?\+ ?(\d+)\]`)
 	// pad lengths the decoder derives from the (constant) parameter-block length
 	fixOverride := map[string]int{"SessionSetupAndxResponse.Pad": 1}
@@ -164,6 +166,10 @@ func main() {
 					cnt[m[1]] = mm[2]
 				}
 			}
+		}
+		rest := map[string]bool{}
+		for _, m := range restRe.FindAllStringSubmatch(unmarshalSrc[c.Name], -1) {
+			rest[m[1]] = true
 		}
 		opt := map[string]bool{}
 		for _, m := range optRe.FindAllStringSubmatch(marshalSrc[c.Name], -1) {
@@ -236,6 +242,7 @@ func main() {
 				fl.Kind = "skip"
 			}
 			if fl.Kind == "bytes" {
+				fl.Rest = rest[fl.Name]
 				if n, ok := fix[fl.Name]; ok {
 					fl.FixLen = n
 				}
@@ -361,11 +368,14 @@ var _ securitymode.SecurityMode
 				}
 			}
 		}
+		if c.AndX {
+			fmt.Fprintf(&sb, "\tc.SetAndX(symAndX(%q)) // an arbitrary AndX block (command, reserved, offset)\n", n)
+		}
 		fmt.Fprintf(&sb, "}\n\nfunc H_CMD_%s() {\n\tL := vParam(\"len\")\n\tc := New%s()\n\tvfill%s(c, L)\n", n, n, n)
 		sb.WriteString("\traw, err := c.Marshal()\n")
 		fmt.Fprintf(&sb, "\tvCheck(err == nil, \"C03/%s/marshal-ok\")\n\tif err != nil {\n\t\treturn\n\t}\n", n)
 		fmt.Fprintf(&sb, "\tparams, data, ok := splitBlocks(raw, %q)\n\tif !ok {\n\t\treturn\n\t}\n", n)
-		fmt.Fprintf(&sb, "\tpos := 0\n\tif c.IsAndX() {\n\t\tpos = checkAndX(params, %q)\n\t}\n\tblk, inData := params, false\n\t_, _ = blk, inData\n", n)
+		fmt.Fprintf(&sb, "\tpos := 0\n\tif c.IsAndX() {\n\t\tpos = checkAndX(params, c.GetAndX(), %q)\n\t}\n\tblk, inData := params, false\n\t_, _ = blk, inData\n", n)
 		layoutStopped := false
 		for _, f := range c.Fields {
 			if f.Cond && !layoutStopped {
@@ -425,15 +435,21 @@ var _ securitymode.SecurityMode
 		}
 		// round trip
 		fmt.Fprintf(&sb, "\td := New%s()\n\td.Init()\n\t_, err = d.Unmarshal(raw)\n\tvCheck(err == nil, \"C04/%s/unmarshal-of-own-encoding-ok\")\n\tif err == nil {\n", n, n)
+		if c.AndX {
+			fmt.Fprintf(&sb, "\t\tvCheck(d.GetAndX() != nil && c.GetAndX() != nil && *d.GetAndX() == *c.GetAndX(), \"C04/%s/andx/roundtrip\")\n", n)
+		}
 		for _, f := range c.Fields {
 			id := "C04/" + n + "/" + f.Name + "/roundtrip"
+			id5 := "C05/" + n + "/" + f.Name + "/decoded-from-its-little-endian-slot"
 			switch f.Kind {
 			case "int", "intarray":
 				fmt.Fprintf(&sb, "\t\tvCheck(d.%s == c.%s, %q)\n", f.Name, f.Name, id)
+				fmt.Fprintf(&sb, "\t\tvCheck(d.%s == c.%s, %q)\n", f.Name, f.Name, id5)
 			case "quad":
 				fmt.Fprintf(&sb, "\t\tvCheck(d.%s.QuadPart == c.%s.QuadPart, %q)\n", f.Name, f.Name, id)
+				fmt.Fprintf(&sb, "\t\tvCheck(d.%s.QuadPart == c.%s.QuadPart, %q)\n", f.Name, f.Name, id5)
 			case "bytes":
-				if lenTargetOf(c, f.Name) || f.FixLen >= 0 {
+				if lenTargetOf(c, f.Name) || f.FixLen >= 0 || f.Rest {
 					fmt.Fprintf(&sb, "\t\tvCheck(vBytesEq(d.%s, c.%s), %q)\n", f.Name, f.Name, id)
 				}
 			case "unicodez":
